@@ -22,7 +22,7 @@ def run(ctx):
     for c in bad[:3]:
         vlib.violation(ctx, "catalogue-" + c["pkg"], dict(semlib.replay_of(cmd, c), kind="a construct of the catalogue is neither rejected nor translated faithfully"), True)
         found = True
-    plan = [("inject", 30), ("minigo-neg", 15)] if quick else [("inject", 600), ("minigo-neg", 400), ("minigo", 200)]
+    plan = [("inject", 30), ("minigo-neg", 15), ("minigos", 10)] if quick else [("inject", 600), ("minigo-neg", 400), ("minigo", 200), ("minigos", 300), ("minigoc", 200)]
     evals = calls = rej = 0
     samples = []
     for i, (profile, n) in enumerate(plan):
